@@ -234,20 +234,20 @@ Ltac finish :=
 
 Lemma wait_for_credit_expired :
   match gen_wait_for_credit with
-  | Some f => forall s len,
+  | Some f => forall s len, t_window s < two64 ->
       let '(s', i, nt) := f s len true in
       (s', iter_map out_of_credit i, nt) = (fst (step s (TryCredit len)), Some (snd (step s (TryCredit len))), false)
   | None => True
   end.
 Proof.
-  gen_start. all: intros s len.
+  gen_start. all: intros s len Hw.
   all: cbv zeta; unfold step, credit_ok; helpers; destruct s as [w se ac fi ca ri he cp pe pd]; setters.
-  all: split_all; finish.
+  all: cbn [t_window] in Hw; split_all; finish.
 Qed.
 
 Lemma wait_for_credit_iteration :
   match gen_wait_for_credit with
-  | Some f => forall s len expired,
+  | Some f => forall s len expired, t_window s < two64 ->
       let '(s', i, nt) := f s len expired in
       s' = s /\ nt = false /\ returned i = ready (WCredit len) s || expired /\
       (ready (WCredit len) s = true -> iter_map wres_of_credit i = Some (snd (waiter_return (WCredit len) s))) /\
@@ -255,10 +255,10 @@ Lemma wait_for_credit_iteration :
   | None => True
   end.
 Proof.
-  gen_start. all: intros s len expired.
+  gen_start. all: intros s len expired Hw.
   all: cbv zeta; unfold ready, waiter_return, credit_ok; helpers.
   all: destruct s as [w se ac fi ca ri he cp pe pd]; setters.
-  all: destruct expired; split_all; finish.
+  all: cbn [t_window] in Hw; destruct expired; split_all; finish.
 Qed.
 
 Lemma wait_for_reconnect_expired :
@@ -326,7 +326,7 @@ Lemma c11_source_translation :
   agrees2 gen_advance_to_file (fun s f => (fst (step s (Advance f)), true)) /\
   agrees2 gen_set_peer (fun s p => (fst (step s (SetPeer p)), false)) /\
   match gen_wait_for_credit with
-  | Some f => forall s len,
+  | Some f => forall s len, t_window s < two64 ->
       let '(s', i, nt) := f s len true in
       (s', iter_map out_of_credit i, nt) = (fst (step s (TryCredit len)), Some (snd (step s (TryCredit len))), false)
   | None => True
